@@ -80,6 +80,8 @@ type Explorer struct {
 	nfresh   int
 	declared map[string]bool
 	defs     map[string]string // interned long terms: term -> name
+	decls    []string          // every declaration/definition sent so far (for one-shot fallbacks)
+	OneShots int
 	ndefs    int
 
 	vars  []ndVar
@@ -100,6 +102,7 @@ type Explorer struct {
 	interp    *interpreter
 	steps     int
 	violated  bool
+	modelless bool // last kept sat context has no model available (one-shot fallback answered)
 	// C08 monitors: cells and maps reachable from the shared (frozen) roots, pooled objects
 	freezeOn   bool
 	frozen     map[*value]bool
@@ -135,7 +138,9 @@ func (e *Explorer) declare(name, sort string) string {
 	q := "|" + name + "|"
 	if !e.declared[name] {
 		e.declared[name] = true
-		e.z.send(fmt.Sprintf("(declare-const %s %s)", q, sort))
+		d := fmt.Sprintf("(declare-const %s %s)", q, sort)
+		e.decls = append(e.decls, d)
+		e.z.send(d)
 	}
 	return q
 }
@@ -163,7 +168,9 @@ func (e *Explorer) share(term, sort string) string {
 	}
 	name := fmt.Sprintf("|t!%d|", e.ndefs)
 	e.ndefs++
-	e.z.send(fmt.Sprintf("(define-fun %s () %s %s)", name, sort, term))
+	d := fmt.Sprintf("(define-fun %s () %s %s)", name, sort, term)
+	e.decls = append(e.decls, d)
+	e.z.send(d)
 	e.defs[term] = name
 	return name
 }
@@ -225,6 +232,23 @@ func (e *Explorer) satKeep(extra string, keep bool) string {
 		e.z.send("(assert " + extra + ")")
 	}
 	r := e.z.checkSat()
+	if r == "unknown" {
+		// the incremental core gave up: ask fresh one-shot solvers (full tactic pipeline)
+		if r2 := e.oneShot(extra); r2 != "unknown" {
+			r = r2
+			if keep && r == "sat" {
+				// the caller wants a model from the kept context: retry there with more time
+				e.z.send("(pop)")
+				e.z.send("(push)")
+				if extra != "" && extra != "true" {
+					e.z.send("(assert " + extra + ")")
+				}
+				if rr := e.z.checkSat(); rr != "sat" {
+					e.modelless = true
+				}
+			}
+		}
+	}
 	if !keep {
 		e.z.send("(pop)")
 	}
@@ -394,6 +418,11 @@ func parseBV(s string) (uint64, bool) {
 
 // model extracts a replay script from the current solver context (must be sat and kept).
 func (e *Explorer) model() map[string]string {
+	if e.modelless {
+		e.modelless = false
+		e.noteInconclusive("sat answered by a one-shot solver only: no model available")
+		return nil
+	}
 	script := map[string]string{}
 	var terms []string
 	for _, v := range e.vars {
